@@ -180,6 +180,9 @@ let handle kind c =
     let final_empty = has_empty !cur.io in
     for tid = 0 to nth - 1 do
       let ikilled = next_bool c in let idone = next_bool c in let iml = next_n c in
+      let caller_closed = next_int c in
+      if caller_closed > 0 then
+        prop1 "caller-mapping-closed" (Printf.sprintf "thread %d: %d call(s) of newCounter unmapped the mapping the process held when it called (its other goroutines' counters still point into it; only the caller may close it, after invalidating them) (scenario %s)" tid caller_closed scen);
       (* an error comes with what the implementation was seen doing during that call: the number of
          mappings it created (re-maps, extensions) and whether its CAS on the limit word reserved a record *)
       let shapes = ref [] in
